@@ -54,6 +54,22 @@ def run(ctx):
         cases = [{"id": "g%d" % i, "b": s} for i, s in enumerate(grow)]
         # mutants: requested with the 11 defined types only (keeps the trace small)
         cases += [{"id": "u%d" % i, "b": s, "odd": False} for i, s in enumerate(mut)]
+        # count edits: containers of fixed-width elements whose declared count times the element width passes 2^31 / 2^32
+        # (skipping multiplies them), at the top level, inside a struct field and nested
+        def be32(n):
+            return [(n >> 24) & 255, (n >> 16) & 255, (n >> 8) & 255, n & 255]
+        k = 0
+        for cnt in (0x08000001, 0x10000000, 0x1fffffff, 0x20000000, 0x40000000, 0x40000001, 0x7fffffff):
+            for et in (2, 3, 4, 6, 8, 10):
+                body = [et] + be32(cnt) + [0, 0, 0, 0, 0, 0, 0, 1, 0, 0, 0, 0, 0, 0, 0, 2, 0]
+                for t in (15, 14):
+                    cases.append({"id": "c%d" % k, "b": body, "t": t, "odd": False}); k += 1
+                    cases.append({"id": "c%d" % k, "b": [t, 0, 1] + body + [0], "t": 12, "odd": False}); k += 1
+                cases.append({"id": "c%d" % k, "b": [15, 0, 0, 0, 1] + body, "t": 15, "odd": False}); k += 1
+            for kt, vt in ((8, 10), (10, 10), (4, 8), (3, 2), (6, 6)):
+                body = [kt, vt] + be32(cnt) + [0] * 17
+                cases.append({"id": "c%d" % k, "b": body, "t": 13, "odd": False}); k += 1
+                cases.append({"id": "c%d" % k, "b": [13, 0, 2] + body + [0], "t": 12, "odd": False}); k += 1
         nrand = 6000 if ctx.quick() else 400000
     plain = [c for c in cases if c.get("odd", True)]
     noodd = [c for c in cases if not c.get("odd", True)]
